@@ -14,7 +14,7 @@ def _r(rng, lo, hi, nd=3):
     return round(rng.uniform(lo, hi), nd)
 
 
-def gen_spec(rng, size=1, inp_only=False, exotic=0.0, share_curves=False, control_attrs=False):
+def gen_spec(rng, size=1, inp_only=False, exotic=0.0, share_curves=False, control_attrs=False, clock_boundaries=False):
     """inp_only: restrict to what the INP format has a place for (C12).  exotic: probability of control forms that
     neither the [CONTROLS] syntax nor the dict 'simple' form can express (reported under their own keys).
     share_curves: let 2-3 elements refer to ONE curve of every type (volume: tanks, head / efficiency: pumps, headloss:
@@ -321,7 +321,31 @@ def gen_spec(rng, size=1, inp_only=False, exotic=0.0, share_curves=False, contro
         _share_curves(sp)
     if control_attrs:
         _control_attrs(sp)
+    if clock_boundaries:
+        _clock_boundaries(sp)
     return sp
+
+
+CLOCK_BOUNDARIES = [0, 1, 1800, 3599, 3600, 11 * 3600 + 3599, 43199, 43200, 43201, 45000, 46799, 46800, 46801, 13 * 3600 + 1800, 86399]
+
+
+def _clock_boundaries(sp):
+    """every clock-time field (START CLOCKTIME, CLOCKTIME controls, SYSTEM CLOCKTIME premises) drawn over the whole day with
+    the AM/PM boundaries (midnight, 11:59:59, noon, 12:30, 12:59:59, 13:00, 23:59:59) — private generator"""
+    import random
+    r2 = random.Random("clock" + json.dumps(sp, sort_keys=True))
+
+    def draw():
+        return r2.choice(CLOCK_BOUNDARIES) if r2.random() < 0.8 else r2.randrange(0, 86400)
+    sp["options"].setdefault("time", {})["start_clocktime"] = draw()
+
+    def walk(c):
+        if c[0] in ("and", "or"):
+            walk(c[1]); walk(c[2])
+        elif c[0] == "clock":
+            c[2] = draw()
+    for c in sp["controls"]:
+        walk(c["cond"])
 
 
 def _control_attrs(sp):
